@@ -354,3 +354,34 @@ def rebuild(pjson):
             circ.insert_at(op.obj, edges)
             prog.spec_insert(op, st[2])
     return prog, circ
+
+
+KIND_OF = {v: k for k, v in CLS.items()}
+
+
+def program_from_circuit(circ):
+    """specification read off an existing circuit (e.g. a solver output): per-register operation order from the wires of
+    the DAG, operation objects by identity.  The DAG's own consistency is what vlib.mon.dag checks separately."""
+    regs = circ.register
+    prog = Program(len(regs["e"]), len(regs["p"]), len(regs["c"]))
+    by_node = {}
+    import networkx as nx
+    for node in nx.topological_sort(circ.dag):
+        op = circ.dag.nodes[node]["op"]
+        name = type(op).__name__
+        if name in ("Input", "Output"):
+            continue
+        kind = KIND_OF[name]
+        q = list(zip(op.q_registers_type, op.q_registers))
+        c = op.c_registers[0] if len(op.c_registers) else None
+        gates = [KIND_OF[g.__name__] for g in op.operations] if kind == "W" else None
+        sp = prog.new_op(kind, q, c, gates)
+        sp.obj = op
+        by_node[node] = sp
+    for t in ("e", "p", "c"):
+        for i in range(len(regs[t])):
+            ids = []
+            for e in wire_edges(circ, t, i)[:-1]:
+                ids.append(by_node[e[1]].id)
+            prog.wires[(t, i)] = ids
+    return prog
